@@ -23,9 +23,9 @@ ASSUMPTIONS = [
     "value restoration is judged by the C01 oracle (strict, or fixpoint at ambiguous unions), so the same two union findings apply",
 ]
 PLAN = {"quick": dict(programs=2000, values=5, depth=3), "thorough": dict(programs=40000, values=10, depth=5)}
-FLOORS = {"quick": {"json_validity_checked": 25000, "entrypoint_agreements": 25000, "coder_call_checks": 15000, "bytes_types_checked": 300, "types_given_by_reference": 3000,
+FLOORS = {"quick": {"subclass_instance_values": 300, "json_validity_checked": 25000, "entrypoint_agreements": 25000, "coder_call_checks": 15000, "bytes_types_checked": 300, "types_given_by_reference": 3000,
                     "bytes_types_wrapped_checked": 300, "bytes_type_forms": 40, "passthrough_roots_checked": 2500},
-          "thorough": {"json_validity_checked": 900000, "entrypoint_agreements": 900000, "coder_call_checks": 500000, "bytes_types_checked": 10000, "types_given_by_reference": 100000,
+          "thorough": {"subclass_instance_values": 10000, "json_validity_checked": 900000, "entrypoint_agreements": 900000, "coder_call_checks": 500000, "bytes_types_checked": 10000, "types_given_by_reference": 100000,
                        "bytes_types_wrapped_checked": 10000, "bytes_type_forms": 60, "passthrough_roots_checked": 50000}}
 
 
@@ -79,7 +79,50 @@ def canaries(sh):
     sh.canary("double-call-visible", len(c.enc_calls) == 2)
 
 
-def one_value(sh, spec, v, prog, rng, coders):
+def subclass_instance(spec, v, rng):
+    """A value of T whose class is a STRICT subclass of the class T names (root position only): every entry point is told T, so
+    every entry point must convert by T's rules. Returns None when no such value can be built."""
+    import dataclasses
+
+    k = spec.kind
+    if k == "scalar":
+        from checks.c06 import subclassify
+
+        try:
+            v2 = subclassify(spec, v, rng, p=1.0)
+        except Exception:  # noqa: BLE001
+            return None
+        return v2 if type(v2) is not type(v) else None
+    if k != "struct" or not isinstance(spec.t, type):
+        return None
+    fl, T = spec.info["flavour"], spec.t
+    try:
+        if fl.startswith("typeddict"):
+            return None
+        if fl == "namedtuple":
+            Sub = type(T.__name__ + "Sub", (T,), {"__slots__": ()})
+            return Sub(*v)
+        if dataclasses.is_dataclass(T):
+            Sub = dataclasses.make_dataclass(T.__name__ + "Sub", [("zz_extra", int, dataclasses.field(default=5))], bases=(T,),
+                                             **({"frozen": True} if T.__dataclass_params__.frozen else {}))
+            Sub.__module__ = T.__module__
+            return Sub(**{f.name: getattr(v, f.name) for f in dataclasses.fields(T) if f.init})
+        Sub = type(T.__name__ + "Sub", (T,), {})
+        obj = Sub.__new__(Sub)
+        for name in dir(v):
+            if not name.startswith("_") and not callable(getattr(v, name)):
+                try:
+                    setattr(obj, name, getattr(v, name))
+                except AttributeError:
+                    return None
+        if hasattr(obj, "__dict__"):
+            obj.zz_extra = 5
+        return obj
+    except Exception:  # noqa: BLE001
+        return None
+
+
+def one_value(sh, spec, v, prog, rng, coders, judge=True):
     T, tsrc = spec.t, spec.src
     # the entry points also accept the type by reference: a ForwardRef carrying the module, or the qualified name
     Tcodec = T
@@ -153,7 +196,7 @@ def one_value(sh, spec, v, prog, rng, coders):
             sh.violation("entrypoints-disagree-value", detail=f"codec={short(u1, 120)} api={short(u2, 120)} composed={short(plain_u, 120)}", **rec)
             continue
         # restoration (C01 rule) - judged once per value on the codec result
-        if cfg == "default":
+        if cfg == "default" and judge:
             if not c01.judge(sh, spec, v, u1, tsrc) and sh.violations:
                 sh.violations[-1].setdefault("config", cfg)
 
@@ -246,7 +289,15 @@ def run_case(sh, i, plan):
     try:
         for spec in roots:
             for _ in range(plan["values"]):
-                one_value(sh, spec, vg.value(spec), prog, rng, coders)
+                v = vg.value(spec)
+                one_value(sh, spec, v, prog, rng, coders)
+                if rng.random() < 0.5:
+                    # the same value as an instance of a strict subclass of T's class: agreement of the entry points only (what is
+                    #   restored is an instance of T)
+                    v2 = subclass_instance(spec, v, rng)
+                    if v2 is not None:
+                        sh.count("subclass_instance_values")
+                        one_value(sh, spec, v2, prog, rng, coders, judge=False)
             if i % 80 == 0:
                 sh.sample({"type": spec.src})
         # bytes-like T carried verbatim
